@@ -135,3 +135,11 @@ pub fn gtf(hi: f64, lo: f64) -> TwoFloat {
     let l = pinned(lo);
     tf(h, l)
 }
+
+/// `same`, except that two zero words of opposite sign are accepted as equal (used only where
+/// known_findings.json lists the sign of an exactly-zero low word as a recorded finding)
+#[inline(always)]
+pub fn same_z(a: TwoFloat, b: TwoFloat) -> bool {
+    let w = |x: f64, y: f64| same_f64(x, y) || (x == 0.0 && y == 0.0);
+    w(a.hi(), b.hi()) && w(a.lo(), b.lo())
+}
